@@ -155,6 +155,30 @@ func (ctx *formatCtx) insert(name string) {
 	ctx.scope.Insert(o)
 }
 
+// insertIdents records the identifiers among exprs (the left side of a := or of a range clause) as local names.
+func (ctx *formatCtx) insertIdents(exprs ...ast.Expr) {
+	for _, expr := range exprs {
+		if id, ok := expr.(*ast.Ident); ok && id.Name != "_" {
+			ctx.insert(id.Name)
+		}
+	}
+}
+
+// insertFields records the parameter/result/receiver names of a function as local names.
+func (ctx *formatCtx) insertFields(lists ...*ast.FieldList) {
+	for _, flds := range lists {
+		if flds != nil {
+			for _, fld := range flds.List {
+				for _, name := range fld.Names {
+					if name.Name != "_" {
+						ctx.insert(name.Name)
+					}
+				}
+			}
+		}
+	}
+}
+
 func (ctx *formatCtx) enterBlock() *types.Scope {
 	old := ctx.scope
 	ctx.scope = types.NewScope(old, token.NoPos, token.NoPos, "")
@@ -233,7 +257,10 @@ func formatGenDecl(ctx *formatCtx, v *ast.GenDecl) {
 }
 
 func formatFuncDecl(ctx *formatCtx, v *ast.FuncDecl) {
+	old := ctx.enterBlock()
+	defer ctx.leaveBlock(old)
 	formatFuncType(ctx, v.Type)
+	ctx.insertFields(v.Recv, v.Type.Params, v.Type.Results)
 	formatBlockStmt(ctx, v.Body)
 }
 
